@@ -1,4 +1,4 @@
-import OrdModel.Proofs.BuilderNoPanic4
+import OrdModel.Proofs.BuilderFull6
 /-!
 # C20 — ordinal-aware sends never misdirect or burn inscriptions; never panic
 
@@ -218,6 +218,231 @@ example : walletTotal (wal [(0, 30000), (1, 5000)] [(0, 100), (0, 1000)]) < U64 
 do real work (alignment output, no padding needed) -/
 example : WF12 (envR 1 1) (wal [(0, 30000), (1, 5000)] [(0, 100), (0, 1000)]) (req (p2tr 0) (0, 1000) .postage) :=
   ⟨Or.inr (by decide), by decide, by decide⟩
+
+/-! ## `c20_no_panic_partial`: the whole pipeline
+
+Hypotheses: `WF` (well-formedness of the wallet abstraction: what a `BTreeMap` of `u64` amounts
+and real change addresses satisfy anyway, plus "outgoing UTXO non-empty or repaired") and
+`Funded`: the state produced by `add_value` satisfies the funding conditions `Cond`
+(`Proofs/BuilderFull5.lean`), one field per remaining panic class.  Under them
+`build_transaction` returns a transaction whenever `add_value` is reached and succeeds, and
+never panics.  `c20_cond_*` below show on the `_fails` witnesses that each field is needed. -/
+
+structure WF (env : Env) (w : Wallet) (r : Request) : Prop extends WF12 env w r where
+  /-- `amounts` is a map -/
+  keys_nodup : (w.amounts.map (·.1)).Nodup
+  /-- the wallet total fits in a `u64` (total supply is below 2^51 sat) -/
+  total_u64 : walletTotal w < U64
+  /-- padding an alignment output cannot overflow -/
+  pad_no_overflow : ∀ u v, w.amounts.lookup u = some v → env.dust r.change0 + v < U64
+  /-- change scripts come from addresses: never `OP_RETURN` -/
+  change0_not_opreturn : r.change0.opReturn = false
+  change1_not_opreturn : r.change1.opReturn = false
+
+/-- the funding conditions hold for the state `add_value` produces (`pre` = alignment output if
+any, `R` = recipient output value, `c` = the change script `strip_value` would use) -/
+def Funded (env : Env) (w : Wallet) (r : Request) : Prop :=
+  ∀ s4 pre R c us, stages1234 env w r = .ok s4 → s4.outputs = pre ++ [(r.recipient, R)] →
+    s4.unused = c :: us → Cond env r s4.inputs.length pre R c
+
+/-- `build_transaction` = stages 1–4 followed by stages 5–7 -/
+theorem build_eq (env : Env) (w : Wallet) (r : Request) :
+    build env w r = Outcome.bind (stages1234 env w r) (tail567 env w r) := by
+  unfold build stages1234 stages123 tail567
+  simp only [bind_def]
+  cases precheck env r <;> simp only [Outcome.bind]
+  cases selectOutgoing env w r (initial w r) <;> simp only [Outcome.bind]
+  rename_i s1
+  cases alignOutgoing w r s1 <;> simp only [Outcome.bind]
+  rename_i s2
+  cases padAlignmentOutput env w r s2 <;> simp only [Outcome.bind]
+
+/-- Under `WF` and `Funded`, once `add_value` has succeeded the remaining stages
+(`strip_value`, `deduct_fee`, `build` with all its assertions) succeed. -/
+theorem c20_ok_after_add_value (env : Env) (w : Wallet) (r : Request) (wf : WF env w r)
+    (hf : Funded env w r) (s4 : St) (h4 : stages1234 env w r = .ok s4) :
+    ∃ tx, build env w r = .ok tx := by
+  have h4' := h4
+  unfold stages1234 stages123 at h4
+  simp only [bind_def] at h4
+  obtain ⟨s3, h123, h4⟩ := bind_eq_ok.1 h4
+  obtain ⟨_, hpre, h123⟩ := bind_eq_ok.1 h123
+  obtain ⟨s1, h1, h123⟩ := bind_eq_ok.1 h123
+  obtain ⟨s2, h2, h3⟩ := bind_eq_ok.1 h123
+  have hd := precheck_distinct hpre wf.change0_not_opreturn wf.change1_not_opreturn
+  obtain ⟨g, amount, ha, hoff⟩ := good_after_stage4 wf.toWF12 wf.keys_nodup hd.2.2 h1 h2 h3 h4
+  obtain ⟨tx, htx⟩ := tail567_ok g wf.keys_nodup wf.total_u64 ha hoff hd.1 hd.2.1 hd.2.2
+    (fun pre R c us ho hu => hf s4 pre R c us h4' ho hu)
+  exact ⟨tx, by rw [build_eq, h4']; exact htx⟩
+
+/-- **`build_transaction` never panics** under `WF` and `Funded`. -/
+theorem c20_no_panic_partial (env : Env) (w : Wallet) (r : Request) (wf : WF env w r)
+    (hf : Funded env w r) (s : String) : build env w r ≠ .panic s := by
+  intro h
+  have h' := h
+  rw [build_eq] at h'
+  rcases bind_eq_panic.1 h' with h4 | ⟨s4, h4, _⟩
+  · exact c20_no_panic_partial_stages1234 env w r wf.toWF12 wf.pad_no_overflow wf.total_u64 s h4
+  · obtain ⟨tx, htx⟩ := c20_ok_after_add_value env w r wf hf s4 h4
+    rw [htx] at h; simp at h
+
+/-! ### Each field of `Cond` is needed
+
+For every `_fails` witness: `Funded` is false, and the decided fields of `Cond` on the state
+after `add_value` (`condBits`, order: strip_no_overflow, slop_no_overflow, fee_lt_value,
+change_pays_fee, target_pos, postage_cap, value_reached, value_not_above, no_dust).  Five
+witnesses violate exactly one field; when the fee exceeds the recipient value (`fee_lt_value`
+false) the fields about `R − fee` are false too (truncated subtraction). -/
+
+theorem not_funded_of_bits {env : Env} {w : Wallet} {r : Request} {s4 : St} {pre : List TxOut}
+    {R : Nat} {c : Script} {us : List Script} (h4 : stages1234 env w r = .ok s4)
+    (ho : s4.outputs = pre ++ [(r.recipient, R)]) (hu : s4.unused = c :: us)
+    (hb : condBits env r s4.inputs.length pre R c ≠ List.replicate 9 true) : ¬ Funded env w r :=
+  fun hf => hb ((cond_iff_bits _ _ _ _ _ _).1 (hf s4 pre R c us h4 ho hu))
+
+theorem c20_cond_needed_fee_lt_value_unwrap :
+    ¬ Funded (envR 1000 1) (wal [(1, 1299), (5, 80469), (7, 88294)]) (req (p2tr 0) (5, 0) (.value 546)) ∧
+    condBits (envR 1000 1) (req (p2tr 0) (5, 0) (.value 546)) 2 [] 168763 (p2tr 2)
+      = [true, true, false, true, true, true, false, true, false] :=
+  ⟨not_funded_of_bits (s4 := ⟨[1], [5, 7], [(p2tr 0, 168763)], [p2tr 2, p2tr 1]⟩) (pre := []) (by decide) rfl rfl
+    (by decide), by decide⟩
+
+theorem c20_cond_needed_fee_lt_value_consume_sat :
+    ¬ Funded (envR 1000 1) (wal [(2, 110327), (8, 19998), (12, 154997)] [(8, 2226), (8, 16554)])
+        (req (p2tr 0) (8, 16554) .postage) ∧
+    condBits (envR 1000 1) (req (p2tr 0) (8, 16554) .postage) 3 [(p2tr 2, 16554)] 268768 (p2tr 1)
+      = [true, true, false, true, true, true, true, true, false] :=
+  ⟨not_funded_of_bits (s4 := ⟨[], [8, 12, 2], [(p2tr 2, 16554), (p2tr 0, 268768)], [p2tr 1]⟩)
+    (pre := [(p2tr 2, 16554)]) (by decide) rfl rfl (by decide), by decide⟩
+
+theorem c20_cond_needed_change_pays_fee :
+    ¬ Funded (envR 1000 1) (wal [(0, 280002)]) (req (p2tr 0) (0, 68660) .postage (wit42 1)) ∧
+    condBits (envR 1000 1) (req (p2tr 0) (0, 68660) .postage (wit42 1)) 1 [(p2tr 2, 68660)] 211342 (wit42 1)
+      = [true, true, true, false, true, true, true, true, false] :=
+  ⟨not_funded_of_bits (s4 := ⟨[], [0], [(p2tr 2, 68660), (p2tr 0, 211342)], [wit42 1]⟩)
+    (pre := [(p2tr 2, 68660)]) (by decide) rfl rfl (by decide), by decide⟩
+
+theorem c20_cond_needed_target_pos :
+    ¬ Funded (envR 0 1) (wal [(8, 546)]) (req burnScript (8, 0) (.exact 0)) ∧
+    condBits (envR 0 1) (req burnScript (8, 0) (.exact 0)) 1 [] 546 (p2tr 2)
+      = [true, true, true, true, false, true, true, true, true] :=
+  ⟨not_funded_of_bits (s4 := ⟨[], [8], [(burnScript, 546)], [p2tr 2, p2tr 1]⟩) (pre := []) (by decide) rfl rfl
+    (by decide), by decide⟩
+
+theorem c20_cond_needed_postage_cap :
+    ¬ Funded (envR 1 2) (wal [(0, 20183)]) (req (p2tr 0) (0, 0) (.exact 20000)) ∧
+    condBits (envR 1 2) (req (p2tr 0) (0, 0) (.exact 20000)) 1 [] 20183 (p2tr 2)
+      = [true, true, true, true, true, false, true, true, true] :=
+  ⟨not_funded_of_bits (s4 := ⟨[], [0], [(p2tr 0, 20183)], [p2tr 2, p2tr 1]⟩) (pre := []) (by decide) rfl rfl
+    (by decide), by decide⟩
+
+theorem c20_cond_needed_value_reached :
+    ¬ Funded (envR 5 2) (wal [(5, 10420), (8, 1)] [(8, 0)]) (req (p2tr 0) (8, 0) (.value 10000)) ∧
+    condBits (envR 5 2) (req (p2tr 0) (8, 0) (.value 10000)) 2 [] 10421 (p2tr 2)
+      = [true, true, true, true, true, true, false, true, true] :=
+  ⟨not_funded_of_bits (s4 := ⟨[], [8, 5], [(p2tr 0, 10421)], [p2tr 2, p2tr 1]⟩) (pre := []) (by decide) rfl rfl
+    (by decide), by decide⟩
+
+theorem c20_cond_needed_value_not_above :
+    ¬ Funded (envR 1 100) (wal [(0, 662)]) (req (p2tr 0) (0, 0) (.value 330)) ∧
+    condBits (envR 1 100) (req (p2tr 0) (0, 0) (.value 330)) 1 [] 662 (p2tr 2)
+      = [true, true, true, true, true, true, true, false, true] :=
+  ⟨not_funded_of_bits (s4 := ⟨[], [0], [(p2tr 0, 662)], [p2tr 2, p2tr 1]⟩) (pre := []) (by decide) rfl rfl
+    (by decide), by decide⟩
+
+theorem c20_cond_needed_no_dust :
+    ¬ Funded (envR 1000 1) (wal [(0, 328), (3, 20191), (7, 169001)]) (req (p2tr 0) (0, 0) .postage) ∧
+    condBits (envR 1000 1) (req (p2tr 0) (0, 0) .postage) 2 [] 169329 (p2tr 2)
+      = [true, true, true, true, true, true, true, true, false] :=
+  ⟨not_funded_of_bits (s4 := ⟨[3], [0, 7], [(p2tr 0, 169329)], [p2tr 2, p2tr 1]⟩) (pre := []) (by decide) rfl rfl
+    (by decide), by decide⟩
+
+/-- a monotone step fee function (no real `FeeRate` behaves like this below the total supply):
+only used to show that the two overflow side conditions are needed -/
+def feeStep (k big : Nat) (n : Nat) : Nat := if n ≤ k then 0 else big
+def envStep (k big : Nat) : Env := { fee := feeStep k big, dust := dustOf }
+
+theorem feeStep_mono (k big : Nat) : ∀ a b, a ≤ b → feeStep k big a ≤ feeStep k big b := by
+  intro a b h
+  unfold feeStep
+  split <;> split <;> omega
+
+/-- `strip_no_overflow` is needed: `dust + fee(vsize + 43)` overflows an `Amount` -/
+theorem c20_cond_needed_strip_no_overflow :
+    build (envStep 111 (2^64 - 1)) (wal [(0, 30000)]) (req (p2tr 0) (0, 0) .postage)
+      = .panic "amount-add@strip_value" ∧
+    condBits (envStep 111 (2^64 - 1)) (req (p2tr 0) (0, 0) .postage) 1 [] 30000 (p2tr 2)
+      = [false, true, true, true, true, false, true, true, true] := by decide
+
+/-- `slop_no_overflow` is needed: `MAX_POSTAGE + fee(43)` overflows an `Amount` -/
+theorem c20_cond_needed_slop_no_overflow :
+    build (envStep 42 (2^64 - 20000)) (wal [(0, 2^64 - 1)]) (req burnScript (0, 0) .postage)
+      = .panic "amount-add@build.slop" ∧
+    condBits (envStep 42 (2^64 - 20000)) (req burnScript (0, 0) .postage) 1 [] (2^64 - 1) (p2tr 2)
+      = [true, false, true, true, true, true, true, true, true] := by decide
+
+/-! ### Non-vacuity of `c20_no_panic_partial`: `WF` and `Funded` hold on the sample wallet -/
+
+theorem lookup_mem_values : ∀ (l : List (Nat × Nat)) (u v : Nat), l.lookup u = some v → v ∈ l.map (·.2) := by
+  intro l
+  induction l with
+  | nil => intro u v h; simp [List.lookup] at h
+  | cons x rest ih =>
+    intro u v h
+    simp only [List.lookup] at h
+    split at h
+    · simp only [Option.some.injEq] at h; simp [h]
+    · simp only [List.map_cons, List.mem_cons]; exact Or.inr (ih u v h)
+
+example : WF (envR 1 1) (wal [(0, 30000), (1, 5000)] [(0, 100), (0, 1000)]) (req (p2tr 0) (0, 1000) .postage) :=
+  { toWF12 := ⟨Or.inr (by decide), by decide, by decide⟩
+    keys_nodup := by decide
+    total_u64 := by decide
+    pad_no_overflow := by
+      intro u v h
+      have := lookup_mem_values _ _ _ h
+      simp only [wal, List.map_cons, List.map_nil, List.mem_cons, List.not_mem_nil, or_false] at this
+      rcases this with rfl | rfl <;> decide
+    change0_not_opreturn := rfl
+    change1_not_opreturn := rfl }
+
+example : Funded (envR 1 1) (wal [(0, 30000), (1, 5000)] [(0, 100), (0, 1000)]) (req (p2tr 0) (0, 1000) .postage) := by
+  intro s4 pre R c us h4 ho hu
+  have hs : stages1234 (envR 1 1) (wal [(0, 30000), (1, 5000)] [(0, 100), (0, 1000)]) (req (p2tr 0) (0, 1000) .postage)
+      = .ok ⟨[1], [0], [(p2tr 2, 1000), (p2tr 0, 29000)], [p2tr 1]⟩ := by decide
+  rw [hs] at h4
+  simp only [Outcome.ok.injEq] at h4
+  subst h4
+  simp only [List.cons.injEq] at hu
+  obtain ⟨rfl, rfl⟩ := hu
+  have hsplit : [(p2tr 2, 1000), (p2tr 0, 29000)] = [(p2tr 2, 1000)] ++ [((req (p2tr 0) (0, 1000) .postage).recipient, 29000)] := rfl
+  rw [hsplit] at ho
+  obtain ⟨rfl, hx⟩ := List.append_inj' ho rfl
+  simp only [List.cons.injEq, Prod.mk.injEq, and_true, true_and] at hx
+  subst hx
+  exact (cond_iff_bits _ _ _ _ _ _).2 (by decide)
+
+/-! ## Observation: `ExactPostage(p)` bounds the recipient value only from above
+
+Clause (f) of the property reads "at least the requested value (or, for postage, no more than the
+postage cap plus one output's fee)": for the two postage targets it is an upper bound, which
+`c20_recipient_value` proves.  It is *not* a lower bound: when `add_value` has to add inputs, its
+57-vbyte estimate per input (real: 57.5) makes the recipient output fall short of `p`; `build`
+asserts only `≤ p + slop` and the dust limit for this target.  So the observation is consistent
+with the property's wording (no violation of C20), and is recorded with a witness (replayed on the
+real builder by `corpus/C20/build.exact-postage-underpay.txt`). -/
+
+/-- `ExactPostage(10000)` at 1000 sat/vB from UTXOs 100 000 and 78 001: the transaction is
+returned and the recipient receives 9 001 sat -/
+theorem c20_exact_postage_may_underpay :
+    build (envR 1000 1) (wal [(0, 100000), (1, 78001)]) (req (p2tr 0) (0, 0) (.exact 10000))
+      = .ok { inputs := [0, 1], outputs := [(p2tr 0, 9001)] } := by decide
+
+/-- what *is* guaranteed from below for every target: the recipient output is not dust (e) and
+is non-empty (a) -/
+theorem c20_recipient_lower_bound (env : Env) (w : Wallet) (r : Request) (tx : Tx)
+    (h : build env w r = .ok tx) : ∀ o ∈ tx.outputs, o.1 = r.recipient → env.dust o.1 ≤ o.2 :=
+  fun o ho _ => c20_no_dust env w r tx h o ho
 
 /-! ## The two proposed repairs (`notes/fix-C20-*.diff`), as flags of the model -/
 
